@@ -197,5 +197,36 @@ pub fn gen_c01(rng: &mut Rng, thorough: bool) -> Vec<Tagged> {
             out.push((tag.into(), Case::Net(spec, NetCmd::Backward(x, t))));
         }
     }
+    // two feedback blocks of different depth and loop count in one network
+    for r in 0..(if thorough { 40 } else { 8 }) {
+        o.wkind = 2;
+        let n = rng.range(2, 4);
+        let input = Sh::Flat(n);
+        let mut spec = NetSpec::new(input.to_shape());
+        let mut ws = vec![];
+        let acts = [Act::Tanh, Act::Sigmoid, Act::Linear];
+        let mut push_block = |spec: &mut NetSpec, ws: &mut Vec<LW>, rng: &mut Rng, nl: usize, loops: usize| {
+            let ls: Vec<Simple> = (0..nl).map(|_| Simple::Dense { out: n, act: *rng.pick(&acts), bias: rng.coin(), dropout: None }).collect();
+            let bw: Vec<W> = ls.iter().map(|l| rand_w(rng, l, Sh::Flat(n), 2)).collect();
+            ws.push(LW::Block(bw));
+            spec.layers.push(LayerSpec::Block { layers: ls, loops, inskips: false, outskips: false, acc: crate::spec::Acc::Mean });
+        };
+        push_block(&mut spec, &mut ws, rng, 1 + r % 2, 1 + r % 3);
+        if r % 3 == 0 {
+            let d = Simple::Dense { out: n, act: Act::Tanh, bias: true, dropout: None };
+            ws.push(LW::One(rand_w(rng, &d, Sh::Flat(n), 2)));
+            spec.layers.push(LayerSpec::One(d));
+        }
+        push_block(&mut spec, &mut ws, rng, 2 - r % 2, 1 + (r + 1) % 3);
+        let d = Simple::Dense { out: rng.range(1, 3), act: Act::Linear, bias: true, dropout: None };
+        let outn = if let Simple::Dense { out, .. } = &d { *out } else { 1 };
+        ws.push(LW::One(rand_w(rng, &d, Sh::Flat(n), 2)));
+        spec.layers.push(LayerSpec::One(d));
+        spec.weights = Some(ws);
+        spec.obj = Obj::MSE;
+        let x = rand_input(rng, input, 2);
+        let t = rand_target(rng, Sh::Flat(outn), Obj::MSE);
+        out.push(("net-bwd-two-blocks".into(), Case::Net(spec, NetCmd::Backward(x, t))));
+    }
     out
 }
